@@ -27,7 +27,7 @@ func (c14) Count(tier string) int {
 	if tier == "thorough" {
 		return 6000
 	}
-	return 400
+	return 1200
 }
 
 var c14ValCols = []string{"v", "u", "g"}
@@ -641,7 +641,7 @@ func (c14) Gen(rng *rand.Rand, tier string, idx int) Case {
 	if tier == "thorough" {
 		nrows = 6 + rng.Intn(55)
 	}
-	last := map[int][2]string{}
+	last, last2 := map[int][2]string{}, map[int][2]string{}
 	numOnly := [2]bool{}
 	for _, l := range c.Cfg {
 		if l[0] == "field" && l[1] != "none" { // wrapper: its calls' argument column must stay numeric/NULL
@@ -660,6 +660,14 @@ func (c14) Gen(rng *rand.Rand, tier string, idx int) Case {
 			if rng.Intn(2) == 0 {
 				u = prev[1]
 			}
+		} else if prev, ok := last2[p]; ok && rng.Intn(4) == 0 { // X, other (often NULL), X again
+			v = prev[0]
+			if rng.Intn(2) == 0 {
+				u = prev[1]
+			}
+		}
+		if prev, ok := last[p]; ok {
+			last2[p] = prev
 		}
 		last[p] = [2]string{v, u}
 		g := c14Fbits([]float64{0, 1, 2, 3, 1.5}[rng.Intn(5)])
